@@ -1058,6 +1058,34 @@ def _static_stamps(prog, chk, R, ex, ev):
                    'with the dynamic class there, a later `k.f(slot)` runs f(Derived) although the analyser resolved f(Base)' % SX.show(val)[:30],
                    key='stamp:store:%s:%s' % (f.short, SX.show(val)[:20]))
     chk.count('stores into existing slots', nst, 4)
+    # (b''') … and no statement erases a slot: storing a default-constructed Value (not a null *reference*) drops the slot's kind and
+    # with it the stamp — the next assignment then keeps the dynamic class (`destroy a; a = new Dog(); k.take(a)` with a declared
+    # Animal ran take(Dog))
+    ner = 0
+    for f in [ex, ev]:
+        g = prog.cfg(f)
+
+        def empty_value(v):
+            v = SX.strip(v)
+            return SX.is_node(v) and ((v.get('k') == 'initlist' and not v.get('items')) or (v.get('k') == 'construct' and not _args(v) and 'Value' in (v.get('type') or '')))
+        for c in g.calls(lambda e: (e['k'] == 'mcall' and e.get('callee') == R.ev_method('assign').name) or (e['k'] == 'call' and e.get('callee') in slot_names)):
+            a = _args(c.e)
+            if len(a) < 2:
+                continue
+            ner += 1
+            chk.ob('R08.4', f, c.ln or f.ln, not empty_value(a[1]),
+                   'a statement stores a default-constructed Value into a declared slot: the slot loses its kind and its static class, so the next object assigned to it keeps '
+                   'its dynamic class (`destroy a; a = new Dog(); k.take(a)` runs take(Dog) for a declared Animal)', key='stamp:erase:%s:%s' % (f.short, SX.show(a[0])[:20]))
+        for n, l, r, op in g.writes():
+            l0 = SX.strip(l)
+            if op == '=' and SX.is_node(l0) and l0.get('k') in ('index', 'opcall') and any(x.get('k') == 'member' and x.get('name') in ('fields', 'staticStorage') for x in SX.walk(l0)) \
+                    and 'Value' in (l0.get('t') or ''):
+                ner += 1
+                chk.ob('R08.4', f, n.ln or f.ln, not empty_value(r),
+                       'a statement overwrites a field slot with a default-constructed Value: the slot loses its kind and its static class, so the next object assigned to it by '
+                       'bare name keeps its dynamic class', key='stamp:erase:%s:%s' % (f.short, SX.show(l0)[:30]))
+    chk.count('statement-level slot stores examined for erasure', ner, 3)
+    _signature_labels(prog, chk, R)
     # (c) a stamped null reference is costed by its stamp, only the literal null costs 3
     rt = R.ev_method('valueConversionCost')
     nulls = [i_ for i_ in SX.walk(rt.body, into_lambdas=False) if i_['k'] == 'if' and
@@ -1069,6 +1097,100 @@ def _static_stamps(prog, chk, R, ex, ev):
                'only an unstamped null (the literal) takes the null cost; a null held in a variable of declared class type is costed by that type '
                '(`Base n = null; k.g(n)` with g(Base)/g(Other) is otherwise ambiguous at run time and the call is silently dropped)', key='stamp:null-cost')
     chk.count('null-cost tests', len(nulls), 1)
+
+
+
+def _kind_label_map(prog, fn, depth=0):
+    """{enumerator short name → label} of a function that renders a type descriptor by switching over its `.kind`; labels:
+    ('lit', text) for a literal, ('dyn', kind) for anything computed (assumed distinct), plus '*' for the default branch."""
+    sw = [n for n in SX.walk(fn.body, into_lambdas=False) if n['k'] == 'switch' and SX.is_node(SX.strip(n['c'])) and SX.strip(n['c']).get('k') == 'member'
+          and SX.strip(n['c'])['name'] == 'kind']
+    if len(sw) != 1:
+        raise AnalysisBroken('%s: expected one switch over the kind of a type descriptor, found %d' % (fn.short, len(sw)))
+    items = sw[0]['body']['body'] if sw[0]['body'].get('k') == 'block' else [sw[0]['body']]
+    groups = []      # ([kinds], [stmts])
+    cur = None
+    for it in items:
+        labels = []
+        s = it
+        while SX.is_node(s) and s.get('k') in ('case', 'default'):
+            labels.append(SX.strip(s['v'])['name'].split('::')[-1] if s['k'] == 'case' else '*')
+            s = s.get('s')
+        if labels:
+            if cur is not None and not cur[2]:
+                cur[0].extend(labels)      # fall-through from a group that has not ended
+            else:
+                cur = [labels, [], False]
+                groups.append(cur)
+            if s is not None:
+                cur[1].append(s)
+        elif cur is not None:
+            cur[1].append(it)
+        if cur is not None and any(x['k'] in ('break', 'return') for st in cur[1][-1:] for x in SX.walk(st, into_lambdas=False)):
+            cur[2] = True
+    out = {}
+    for kinds, stmts, _ in groups:
+        lits = []
+        calls = []
+        for st in stmts:
+            for x in SX.walk(st, into_lambdas=False):
+                if x['k'] == 'str':
+                    lits.append(x['v'])
+                if x['k'] in ('call', 'mcall') and x.get('callee') and prog.by_name.get(x['callee']):
+                    calls.append(x['callee'])
+        for k in kinds:
+            if calls and not lits and depth < 2:
+                sub = _kind_label_map(prog, prog.by_name[calls[0]][0], depth + 1)
+                out[k] = ('via', calls[0], sub)
+            elif len(lits) == 1 and not calls:
+                out[k] = ('lit', lits[0])
+            else:
+                out[k] = ('dyn', k)
+    return out
+
+
+def _label_of(m, kind):
+    v = m.get(kind, m.get('*'))
+    if v is None:
+        return ('none', kind)
+    if v[0] == 'via':
+        return _label_of(v[2], kind)
+    if v[0] == 'dyn':
+        return ('dyn', kind)
+    return v
+
+
+def _signature_labels(prog, chk, R):
+    """Overloads of one name are told apart at run time by a signature label (the hierarchy walk of findMethod skips a candidate whose
+    label it has already seen: an override hides the base version).  Two overloads whose labels coincide hide each other: only the
+    first is ever a candidate, and a call that needs the second finds no method and is dropped.  So the label is injective over
+    the kinds a parameter can have (every Value::Type except the two that are not parameter types: Void, ClassRef)."""
+    enum = [e for n, e in prog.facts.enums.items() if n.endswith('runtime::Value::Type')]
+    if not enum:
+        raise AnalysisBroken('Value::Type enumeration not found')
+    kinds = [(c if isinstance(c, str) else c.get('name')).split('::')[-1] for c in enum[0]['constants']]
+    kinds = [k for k in kinds if k not in ('Void', 'ClassRef')]
+    fns = set()
+    for f in prog.in_file('runtime_evaluator.cpp'):
+        if not f.body:
+            continue
+        for n in SX.walk(f.body, into_lambdas=False):
+            w = SX.write_target(n)
+            if w and w[2] == '=' and SX.is_node(SX.strip(w[0])) and SX.strip(w[0]).get('k') == 'member' and SX.strip(w[0])['name'] == 'signature':
+                r = SX.strip(w[1])
+                if SX.is_node(r) and r.get('k') == 'call' and prog.by_name.get(r.get('callee')):
+                    fns.add(r['callee'])
+    chk.count('functions that label a runtime signature', len(fns), 1)
+    for name in sorted(fns):
+        fn = prog.by_name[name][0]
+        m = _kind_label_map(prog, fn)
+        by = {}
+        for k in kinds:
+            by.setdefault(_label_of(m, k), []).append(k)
+        clash = {('%s' % (l[1],)): ks for l, ks in by.items() if len(ks) > 1}
+        chk.ob('R08.4', fn, fn.ln, not clash,
+               'the signature label distinguishes every kind of parameter type (%d kinds): overloads whose labels coincide hide each other in the hierarchy walk, and a call that '
+               'needs the hidden one is dropped; same label for: %s' % (len(kinds), clash), key='signature-label:' + fn.short)
 
 
 def _stamp_functions(prog, R):
